@@ -319,6 +319,9 @@ type inputs struct {
 	// lite: skip operations that take seconds (SLH-DSA signing); used by the fuzz targets and by
 	// most rapid cases with SLH-DSA "s" parameter sets.
 	lite bool
+	// pick selects which accepted handle is exercised (index = pick mod number of accepted handles);
+	// drawn per case by the rapid units (gen.Uniform), 0 in the fuzz targets and fixed inputs.
+	pick uint64
 }
 
 type result struct {
